@@ -786,6 +786,8 @@ Fixpoint cast_v (strict : bool) (to : ty) (v : value) {struct to} : res value :=
                 end) ts xs)
       | Some k, VRec fs =>
           if negb (Nat.eqb (length fs) (length ts)) then Err EValue else
+          (* strict: the fields are already in the result's order *)
+          if strict && negb (list_eqb nm_eqb (map fst fs) k) then Err EValue else
           rmap VRec
             ((fix go (ts : list ty) (kl : list name) : res (list (name * value)) :=
                 match ts, kl with
@@ -800,11 +802,18 @@ Fixpoint cast_v (strict : bool) (to : ty) (v : value) {struct to} : res value :=
       | _, _ => Err EValue
       end
   | TUnion ts =>
-      (fix first (l : list ty) : res value :=
-         match l with
-         | [] => Err EValue
-         | t1 :: rest => match cast_v strict t1 v with Ok r => Ok r | Err _ => first rest end
-         end) ts
+      (* the alternative the value came from: the first that holds it unchanged, else the first that holds it
+         after the mergebool cast / field reordering *)
+      let pass (s : bool) :=
+        (fix first (l : list ty) : res value :=
+           match l with
+           | [] => Err EValue
+           | t1 :: rest => match cast_v s t1 v with Ok r => Ok r | Err _ => first rest end
+           end) ts in
+      match pass true with
+      | Ok r => Ok r
+      | Err e => if strict then Err e else pass false
+      end
   end.
 Definition cast_val (to : ty) (v : value) : res value :=
   match cast_v true to v with Ok r => Ok r | Err _ => cast_v false to v end.
